@@ -116,6 +116,9 @@ func (x *Ex) genTables() string {
 		{"internal/domutil", "rxVisibilityHidden"}, {"internal/domutil", "rxSrcsetURL"},
 		{"internal/stringutil", "rxFullWordCounter"}, {"internal/stringutil", "rxLetterWordCounter"},
 		{"internal/stringutil", "rxWordMatcher1"}, {"internal/stringutil", "rxWordMatcher2"}, {"internal/stringutil", "rxWordMatcher3"},
+		{"internal/pagination", "rxNextLink"}, {"internal/pagination", "rxPrevLink"}, {"internal/pagination", "rxPositive"}, {"internal/pagination", "rxNegative"},
+		{"internal/pagination", "rxExtraneous"}, {"internal/pagination", "rxPagination"}, {"internal/pagination", "rxLinkPagination"}, {"internal/pagination", "rxFirstLast"},
+		{"internal/pagination", "rxNumberAtStart"},
 		{"internal/converter", "rxUnlikelyCandidates"}, {"internal/converter", "rxOkMaybeItsACandidate"}, {"internal/converter", "rxByline"},
 	})
 	x.tableVar(f, "internal/extractor/embed", "relevantTwitterTags", "relevantTwitterTags")
